@@ -1,10 +1,10 @@
 import GeomV.Common.Geom
+import GeomV.C02.Model
 /-!
 # C03 — executable model of the measure code of ctessum/geom
 
 Exact part (core `Rat`): `area.go` (`Polygon.Area`, `area`, `signedarea`, `Polygon.Centroid`),
-`multipolygon.go` (`Area`, `Centroid` — the FIXED code, see notes/C03.md), `within.go`
-(`pointInPolygon`, `rayIntersectsSegment` — as fixed by the C02 worker), `simplify.go` (`pointOnSegment`), `similar.go`
+`multipolygon.go` (`Area`, `Centroid` — the FIXED code, see notes/C03.md), `within.go`/`simplify.go` (`pointInPolygon` and below: imported from `GeomV.C02.Model`), `similar.go`
 (`pointsSimilar` as used by `area`), `bounds.go` (`Area`, `Centroid`), `op/properties.go`
 (`Area`, `area`, `Centroid`).
 
@@ -62,74 +62,25 @@ deriving Repr, DecidableEq
 def fdiv (a b : Rat) : FQ :=
   if b = 0 then (if 0 < a then .pinf else if a < 0 then .ninf else .nan) else .fin (a / b)
 
-/-- IEEE `==` (NaN is unequal to everything) -/
-def FQ.feq : FQ → FQ → Bool
-  | .fin a, .fin b => a == b
-  | .pinf, .pinf => true
-  | .ninf, .ninf => true
-  | _, _ => false
-
-/-- `pointOnSegment` (simplify.go) -/
-def pointOnSegment (p l1 l2 : P) : Bool :=
-  if (p.x < l1.x ∧ p.x < l2.x) ∨ (p.x > l1.x ∧ p.x > l2.x) ∨
-     (p.y < l1.y ∧ p.y < l2.y) ∨ (p.y > l1.y ∧ p.y > l2.y) then false
-  else
-    let d1x := l1.x - p.x; let d1y := l1.y - p.y
-    let d2x := l2.x - l1.x; let d2y := l2.y - l1.y
-    (d1x == 0 && d2x == 0) || FQ.feq (fdiv d1y d1x) (fdiv d2y d2x)
-
-/-- `rayIntersectsSegment` (within.go, after the C02 fix commits 8183868/002b017: half-open height
-range `[a.Y, b.Y)` instead of the `math.Nextafter` nudge; `p.X <= a.X` shortcut).  In the final
-quotient comparison no denominator can be zero: in the first branch `b.x ≤ p.x < a.x`, in the second
-`a.x < p.x ≤ b.x`. -/
-def rayX (p a0 b0 : P) : Bool :=
-  let a := if a0.y > b0.y then b0 else a0
-  let b := if a0.y > b0.y then a0 else b0
-  let slope : Bool := decide ((p.y - a.y) / (p.x - a.x) ≥ (b.y - a.y) / (b.x - a.x))
-  if p.y < a.y ∨ p.y ≥ b.y then false
-  else if a.x > b.x then
-    (if p.x ≥ a.x then false else if p.x < b.x then true else slope)
-  else
-    (if p.x > b.x then false else if p.x ≤ a.x then true else slope)
-
 inductive Side where
   | outside | inside | onEdge
 deriving Repr, DecidableEq
 
-/-- the segments `pointInPolygon` visits for one ring, in its order -/
-def segsOf (ring : Ring) : List (P × P) :=
-  match ring.getLast?, ring.head? with
-  | some l, some h => (if l = h then [] else [(l, h)]) ++ ring.zip ring.tail
-  | _, _ => []
+def ofStatus : C02.Status → Side
+  | .outside => .outside
+  | .inside => .inside
+  | .onEdge => .onEdge
 
-/-- one ring's loop: `none` = returned `OnEdge`, `some in'` = the updated parity -/
-def scanSegs (pt : P) : List (P × P) → Bool → Option Bool
-  | [], i => some i
-  | (a, b) :: t, i =>
-    if pointOnSegment pt a b then none else scanSegs pt t (if rayX pt a b then !i else i)
-
-def lminD (l : List Rat) (d : Rat) : Rat := l.foldl min d
-def lmaxD (l : List Rat) (d : Rat) : Rat := l.foldl max d
-
-/-- `pgBounds[i].Overlaps(NewBoundsPoint(pt))` for a non-empty ring -/
-def bboxHas (ring : Ring) (pt : P) : Bool :=
-  match ring with
-  | [] => false
-  | v :: t =>
-    decide (lminD (t.map (·.x)) v.x ≤ pt.x) && decide (lminD (t.map (·.y)) v.y ≤ pt.y) &&
-    decide (lmaxD (t.map (·.x)) v.x ≥ pt.x) && decide (lmaxD (t.map (·.y)) v.y ≥ pt.y)
-
-/-- `pointInPolygon` (within.go) -/
-def pipGo (pt : P) : Poly → Bool → Side
-  | [], i => if i then .inside else .outside
-  | ring :: rest, i =>
-    if ring.length < 3 then pipGo pt rest i
-    else if !bboxHas ring pt then pipGo pt rest i
-    else match scanSegs pt (segsOf ring) i with
-      | none => .onEdge
-      | some i' => pipGo pt rest i'
-
-def pip (pt : P) (rings : Poly) : Side := pipGo pt rings false
+/-- `pointInPolygon(pp, pWithoutRing, boundsWithoutRing)` as `area` calls it: the model of within.go
+is property C02's (`GeomV.C02.pointInPolygon`, tied to the same source by C02's own correspondence
+and regenerated definitions, and here once more by this property's correspondence through
+`Polygon.Area`), given the bounds of the very rings it is called with — `area` builds
+`boundsWithoutRing` from the same rings.  With those bounds the `pgBounds[i]` index fault cannot occur
+(`pip_no_fault` in LemmasPip.lean), so the unreachable error branch is given an arbitrary value. -/
+def pip (pt : P) (rings : Poly) : Side :=
+  match C02.pointInPolygon pt rings (C02.ringBounds rings) with
+  | .ok s => ofStatus s
+  | .error _ => .outside
 
 /-! ## area.go -/
 
